@@ -292,6 +292,11 @@ def run(ctx):
         name, bad, fix = rng.choice([("janus-order", _bad_janus, _fix_janus), ("dt-degenerate", _bad_dt, _fix_dt),
                                      ("tmax-nan", _bad_tmax, _bad_tmax), ("saba-coordinates", _bad_saba, _fix_saba)])
         sim = new_sim(rebound, rng.choice(["whfast", "leapfrog", "ias15", "saba"]), 0.0, 0.01)
+        steps00 = sim.steps_done
+        def hb_cap(simp, steps00=steps00):
+            s_ = simp.contents
+            if s_.steps_done - steps00 > 3000 and s_._status < 0: s_._status = 98      # a call that never ends ends here
+        sim.heartbeat = hb_cap
         import warnings as _w
         with _w.catch_warnings():
             _w.simplefilter("ignore")
@@ -309,10 +314,59 @@ def run(ctx):
             except Exception as ex:
                 err = repr(ex)[:160]
         ctx.case(key=("after-error", name, raised))
-        if raised and (err is not None or sim._status != 0 or not (sim.t == tm or abs(sim.t - tm) < 1e-12 * abs(tm))):
+        if sim._status == 98:
+            fails.append({"why": "a call in the scenario '%s' did not return within 3000 steps (t=%r dt=%r)" % (name, sim.t, sim.dt), "scenario": name})
+        elif raised and (err is not None or sim._status != 0 or not (sim.t == tm or abs(sim.t - tm) < 1e-12 * abs(tm))):
             fails.append({"why": "after a call that raised (%s) the next valid integrate(%r) on the same object %s: t=%r status=%d"
                                  % (name, tm, ("raised " + err) if err else "did not reach its target", sim.t, sim._status),
                           "scenario": name, "integrator_after": sim.integrator})
+    # a first step far below the resolution of t is a VALID input for the adaptive integrators (dt is only their first
+    # guess and grows by itself): large epochs (Julian dates), continued runs, both directions, both finishing modes
+    for rep in range(ctx.scale(6, 30)):
+        integ = rng.choice(["ias15", "bs"])
+        t0 = rng.choice([1e6, 2460000.5, -3e5, 2e4])
+        dt0 = rng.choice([1e-11, 1e-10, 1e-12, 5e-13]) * rng.choice([1, -1])
+        sgn = rng.choice([1, -1]); ex = rng.choice([0, 1])
+        sim = new_sim(rebound, integ, t0, dt0)
+        tm = t0 + sgn * rng.choice([0.5, 1.0, 2.5])
+        steps00 = sim.steps_done
+        def hb_cap2(simp, steps00=steps00):
+            s_ = simp.contents
+            if s_.steps_done - steps00 > 20000 and s_._status < 0: s_._status = 98
+        sim.heartbeat = hb_cap2
+        err = None
+        try:
+            sim.integrate(tm, exact_finish_time=ex)
+        except Exception as ex_:
+            err = repr(ex_)[:160]
+        ctx.case(key=("tiny-first-step", integ, ex))
+        ok = err is None and sim._status == 0 and ((sim.t == tm or abs(sim.t - tm) < 1e-12 * abs(tm)) if ex else sgn * (sim.t - tm) >= 0)
+        if not ok:
+            fails.append({"why": "%s started at t=%r with first step %r (below the resolution of t, valid for an adaptive integrator) did not integrate to %r: %s t=%r status=%d"
+                                 % (integ, t0, dt0, tm, err or "", sim.t, sim._status), "integrator": integ, "t0": t0, "dt": dt0, "tmax": tm, "exact": ex})
+    # either direction of time, for the hybrid integrator's sub-integrations too: TRACE integrating backward through a
+    # pericentre switch must be the mirror image of the velocity-reversed forward run (child process: see the driver)
+    import subprocess as _sp
+    drv = os.path.join(os.path.dirname(os.path.abspath(__file__)), "c08_trace_child.py")
+    for peri in ("FULL_BS", "FULL_IAS15", "PARTIAL_BS"):
+        for dtv, T in ((-1.0, 5.0), (-0.7, 4.2))[:ctx.scale(1, 2)]:
+            try:
+                r_ = vlib.run_py(libdir, drv, [libdir, peri, dtv, T], timeout=120)
+                out_, rc_ = r_.stdout.strip(), r_.returncode
+            except _sp.TimeoutExpired:
+                out_, rc_ = "did not return within 120 s", -1
+            ctx.case(key=("trace-backward", peri, dtv))
+            bad = None
+            if rc_ != 0 or not out_.startswith("maxdiff"):
+                bad = "child process exit %s: %s" % (rc_, (out_ or r_.stderr)[-200:])
+            else:
+                tok = out_.split()
+                dmax = float(tok[1]); ta, tb = float(tok[3]), float(tok[4])
+                if not (ta == -T and tb == T): bad = "did not reach the targets: t=%r / %r" % (ta, tb)
+                elif not dmax < 1e-6: bad = "backward run differs from the mirrored forward run by %.3g" % dmax
+            if bad:
+                fails.append({"why": "TRACE (peri_mode %s) integrating backward (dt=%r, to t=%r): %s" % (peri, dtv, -T, bad),
+                              "integrator": "trace", "peri_mode": peri, "dt": dtv, "tmax": -T})
     # split == direct, bitwise, fixed-step, exact_finish_time=0
     for k in range(ctx.scale(60, 600)):
         integ = ["leapfrog", "whfast", "saba", "eos", "janus", "none"][k % 6]
